@@ -197,9 +197,14 @@ pub fn run(max_windows: u64, honest: bool) -> WorldOutcome {
                 blocks_by_slot.entry(s).or_default().push(((s, 1), chain_tip));
                 // an eager leader's block can arrive well before its nominal time (honest mode only)
                 // ... or late enough for the others' notar votes to overtake it (well inside the node's timeouts)
+                // Late blocks only where nobody can finalize a slot without the node's vote: otherwise the
+                // others finalize the slot before the block arrives, the node (correctly) casts no notar
+                // vote there, therefore none in the next slot either, and ends up skipping - a lagging
+                // node's legitimate behaviour, not the environment this oracle is about.
+                let needed = vote_role.iter().any(|r| *r != 0);
                 let (early, late) = match if honest { kernel::choose(E, 3) } else { 0 } {
                     1 => (150 + kernel::choose(E, 150), 0),
-                    2 => (0, 150 + kernel::choose(E, 150)),
+                    2 if needed => (0, 150 + kernel::choose(E, 250)),
                     _ => (0, 0),
                 };
                 script.push((t_s - early + late + kernel::choose(E, 100), In::Block { b: (s, 1), parent: chain_tip }));
@@ -208,7 +213,8 @@ pub fn run(max_windows: u64, honest: bool) -> WorldOutcome {
                     if v == real {
                         continue;
                     }
-                    let slow = if slow_voters[v] { 250 + kernel::choose(E, 250) } else { 0 };
+                    // (when the block is late nobody's vote is: the votes overtake the block)
+                    let slow = if slow_voters[v] && late == 0 { 250 + kernel::choose(E, 250) } else { 0 };
                     if vote_role[v] <= 1 {
                         script.push((t_s + 50 + slow + kernel::choose(E, 200), In::Vote { v, kind: VK::Notar, slot: s, tag: 1 }));
                     }
